@@ -640,6 +640,9 @@ func bases(t *testing.T) []base {
 	// the repository's own generator is searched for it
 	zeroTailSeed := 0
 	for sd := 1; sd < 40000 && zeroTailSeed == 0; sd++ {
+		if b := (sd + 1) % 256; b == 0 || b >= 250 {
+			continue // operator keys seed..seed+n-1: the repository's deterministic key generator spins on the bytes 0x00 / 0xff
+		}
 		if strings.HasSuffix(testutil.RandomETHAddressSeed(rand.New(rand.NewSource(int64(sd)))), "00") {
 			zeroTailSeed = sd
 		}
